@@ -809,7 +809,9 @@ def run(chk: core.Check):
         "(for prepare_urlencoded also scalars, arrays holding scalars and already prepared pairs) over names and texts with space, '&', '=', '%', '+', quotes, "
         "non-ASCII, empty, integers, None, booleans; operations whose urlencoded request body is an object / an array of objects (minItems 0 or 1) / an object without "
         "required fields, optional fields, enum / free strings / integers, 70% with an example; cases of the fuzzing, examples and coverage phases sent through "
-        "requests, WSGI and ASGI; non-trivial = a non-empty array body"
+        "requests, WSGI and ASGI; non-trivial = a non-empty array body. unfiltered phases: one primitive parameter per location in every style of the location "
+        "(path: absent / simple / label / matrix x explode absent / true / false), value 70% from 0, 0.0, False, '' else from 5, 1.5, True, 'x', 'a.b', '0', given as "
+        "`example` and as the only enum value; the positive cases of the EXAMPLES and COVERAGE modes of create_test sent by case.call(); non-trivial = a falsy value"
     )
     chk.proofs(["Common", "C06"])
     rng = chk.rng
@@ -833,6 +835,9 @@ def run(chk: core.Check):
             chk, rng, rec, (40 if quick else 500) * (5 if chk.broken else 1), [c["query"] for c in corpus if c.get("stage") == "multi_query"]
         )
         chk.stages["oracle_coverage_phase"] = oracle_coverage_phase(chk, rng, 12 if quick else 120)
+        chk.stages["oracle_unfiltered_phases"] = oracle_unfiltered_phases(
+            chk, rng, rec, (40 if quick else 400) * (3 if chk.broken else 1), [c["case"] for c in corpus if c.get("stage") == "unfiltered"]
+        )
         corr_histories(chk, rng, rec, (120 if quick else 1500) * (4 if chk.broken else 1), [c["history"] for c in corpus if c.get("stage") == "history"])
         corr_exchanges(chk, rng, rec, (150 if quick else 2000) * (4 if chk.broken else 1), [c["exchanges"] for c in corpus if c.get("stage") == "exchanges"])
         corr_form_bodies(chk, rng, rec, 150 * scale, 60 * scale, (5 if quick else 40) * (4 if chk.broken else 1), 6 if quick else 12)
@@ -2713,6 +2718,171 @@ def corr_form_bodies(chk, rng, rec, n_prepare, n_wire, n_ops, n_fuzz):
     chk.stages["correspondence_and_oracle_form_bodies"] = stage
 
 
+# ----------------------------------------------------------------------------------------
+# phases without a validity filter: explicit examples and coverage (boundary) cases on the wire (after seed C06_g)
+# ----------------------------------------------------------------------------------------
+FALSY_PRIMS = [0, 0.0, False, ""]
+TRUTHY_PRIMS = [5, 1.5, True, "x", "a.b", "0"]
+JSON_TYPE = {bool: "boolean", int: "integer", float: "number", str: "string"}
+UNFILTERED_STYLES = {"path": [None, "simple", "label", "matrix"], "query": [None, "form"], "header": [None, "simple"], "cookie": [None, "form"]}
+UNFILTERED_NAMES = {"path": "id", "query": "q", "header": "X-A", "cookie": "c"}
+
+
+def model_proxy(v):
+    """The model has no floats: a float is classified through an integer of the same truth value (the region predicates
+    look at the shape, the truth value and the delimiters of str(v) only; '.' is a delimiter for no primitive style)."""
+    if isinstance(v, float):
+        return 0 if v == 0 else 1
+    return v
+
+
+def unfiltered_defs(rng, k):
+    defs, values = {}, {}
+    for loc in ("path", "query", "header", "cookie"):
+        if loc != "path" and rng.random() < 0.3:
+            continue
+        d = {"name": UNFILTERED_NAMES[loc], "in": loc, "required": True}
+        style = UNFILTERED_STYLES[loc][(k + rng.randrange(2)) % len(UNFILTERED_STYLES[loc])] if loc != "path" else UNFILTERED_STYLES[loc][k % 4]
+        if style is not None:
+            d["style"] = style
+            e = rng.choice([None, True, False])
+            if e is not None:
+                d["explode"] = e
+        v = rng.choice(FALSY_PRIMS) if rng.random() < 0.7 else rng.choice(TRUTHY_PRIMS)
+        d["schema"] = {"type": JSON_TYPE[type(v)], "enum": [v]}
+        d["example"] = v
+        defs[loc], values[loc] = d, v
+    return defs, values
+
+
+def unfiltered_cases(op, rec):
+    """The positive cases of the EXAMPLES and COVERAGE phases of `op`, each sent with case.call(): (phase, case, received)."""
+    from hypothesis import HealthCheck, Phase, settings
+
+    from schemathesis.generation import GenerationConfig
+    from schemathesis.generation.hypothesis.builder import HypothesisTestConfig, HypothesisTestMode, create_test
+
+    out = []
+
+    def body(case):
+        if case.meta is not None and case.meta.generation.mode.value != "positive":
+            return
+        phase = case.meta.phase.name.value if case.meta is not None else "?"
+        snapshot = {"path": copy.deepcopy(case.path_parameters), "query": copy.deepcopy(case.query)}
+        rec.take()
+        try:
+            case.call()
+            got = rec.take()
+        except Exception as exc:  # noqa: BLE001
+            got = f"raises {type(exc).__name__}: {exc}"[:200]
+        out.append((phase, snapshot, got))
+
+    test = create_test(
+        operation=op,
+        test_func=body,
+        config=HypothesisTestConfig(
+            generation=GenerationConfig(),
+            modes=[HypothesisTestMode.EXAMPLES, HypothesisTestMode.COVERAGE],
+            settings=settings(max_examples=1, deadline=None, database=None, phases=[Phase.explicit], suppress_health_check=list(HealthCheck)),
+        ),
+    )
+    test()
+    return out
+
+
+def classify_unfiltered(loc, d, value, info):
+    """Per STYLE: the label region holds label parameters only (nonempty_ok FLabelPrim = truth value); a matrix / simple / form
+    parameter with a falsy value is in no region, except the empty string of an unstyled path parameter (the segment is empty)."""
+    if loc == "path" and value == "" and info[0] is not None and main_sfun(info[0]) is None:
+        return "empty_path_value"  # decided BEFORE the dispatch regions: an unstyled primitive is sent as str(value) whatever the keywords
+    return classify(loc, d, model_proxy(value), info, None)
+
+
+def oracle_unfiltered_phases(chk, rng, rec, n, corpus=()):
+    """Falsy (0, 0.0, False, "") and some truthy primitive values of path / query / header / cookie parameters in every style,
+    as explicit `example` and as the only enum value (coverage phase): every positive case of the two phases is sent and the
+    received request is decoded with the independent style decoders.  Correspondence: the path / query container of each
+    case vs Model_C06.phase_path / phase_query (PhExamples, PhCoverage)."""
+    stats = {"operations": 0, "cases_sent": 0, "examples_phase": 0, "coverage_phase": 0, "falsy_parameters_checked": 0,
+             "parameters_recovered": 0, "known_region_hits": 0, "not_sent": 0, "containers_compared": 0}
+    todo = [(c["defs"], c["values"]) for c in corpus] + [unfiltered_defs(rng, k) for k in range(n)]
+    exprs, index, mexprs, mindex = [], [], [], []
+    for i, (defs, values) in enumerate(todo):
+        for loc, d in defs.items():
+            exprs.append(coq_info_expr(d, model_proxy(values[loc])))
+            index.append((i, loc))
+            if loc in ("path", "query") and not isinstance(values[loc], float):
+                fn = "phase_path" if loc == "path" else "phase_query"
+                dd, it = clist([c_def3(d)], "definition"), c_item({d["name"]: values[loc]})
+                mexprs.append(f"[{fn} PhExamples {dd} {it}; {fn} PhCoverage {dd} {it}]")
+                mindex.append((i, loc))
+    infos, models = [dict() for _ in todo], [dict() for _ in todo]
+    for (i, loc), t in zip(index, core.coq_eval(IMPORTS, exprs)):
+        infos[i][loc] = parse_info(t)
+    for (i, loc), t in zip(mindex, core.coq_eval(IMPORTS, mexprs)):
+        models[i][loc] = [p_gen(x) for x in t]
+    for (defs, values), info, model in zip(todo, infos, models):
+        op = build_op([copy.deepcopy(d) for d in defs.values()], rec.url + "/api")
+        try:
+            cases = unfiltered_cases(op, rec)
+        except Exception as exc:  # noqa: BLE001
+            chk.count(f"unfiltered:skipped:{type(exc).__name__}")
+            continue
+        stats["operations"] += 1
+        canon_in = {"defs": defs, "values": {k: canon_f(v) for k, v in values.items()}}
+        for phase, snapshot, got in cases:
+            if phase not in ("explicit", "coverage"):
+                continue
+            stats["examples_phase" if phase == "explicit" else "coverage_phase"] += 1
+            inp = {**canon_in, "phase": "examples" if phase == "explicit" else "coverage"}
+            # (1) correspondence of the containers of the case
+            for loc in ("path", "query"):
+                if loc in model and isinstance(snapshot[loc], dict) and defs[loc]["name"] in snapshot[loc]:
+                    want = model[loc][0 if phase == "explicit" else 1]
+                    impl = ("GOk", canon_item({defs[loc]["name"]: snapshot[loc][defs[loc]["name"]]}))
+                    stats["containers_compared"] += 1
+                    if want != "GUnmodelled" and impl != want:
+                        chk.disagree(f"{loc} container of a case of the examples / coverage phase vs Model_C06.phase_{loc}", {**inp, "location": loc}, impl, want)
+            # (2) the wire
+            if not isinstance(got, list) or len(got) != 1:
+                stats["not_sent"] += 1
+                chk.count("unfiltered:not-sent")
+                regions = {classify_unfiltered(loc, d, values[loc], info[loc]) for loc, d in defs.items()}
+                if regions == {None}:
+                    chk.fail("a positive case of the examples / coverage phase could not be sent", inp, {"outcome": got if isinstance(got, str) else f"{len(got)} requests"})
+                continue
+            stats["cases_sent"] += 1
+            item = got[0]
+            path_region = classify_unfiltered("path", defs["path"], values["path"], info["path"])
+            for loc, d in defs.items():
+                fs = info[loc][0]
+                if fs is None:
+                    continue
+                v = values[loc]
+                falsy = not v
+                stats["falsy_parameters_checked"] += falsy
+                chk.seen({"unfiltered": [inp["phase"], loc, d.get("style"), d.get("explode"), canon_f(v)]}, falsy)
+                chk.count(f"unfiltered:{inp['phase']}:{loc}:{d.get('style') or 'default'}:{'falsy' if falsy else 'truthy'}")
+                region = classify_unfiltered(loc, d, v, info[loc])
+                try:
+                    decoded = decode_received(loc, d, fs, item)
+                    ok = same_up_to_coercion(decoded, v)
+                    detail = {"decoded": decoded}
+                except Undecodable as exc:
+                    ok, detail = False, {"undecodable": str(exc)}
+                if ok:
+                    stats["parameters_recovered"] += 1
+                    continue
+                if region is None and loc == "query" and path_region == "default_style_not_applied":
+                    region = path_region
+                if region is not None:
+                    stats["known_region_hits"] += 1
+                chk.fail(
+                    f"{loc} parameter of a case of the {inp['phase']} phase not recovered from the wire by the {d.get('style') or 'default'} decoder",
+                    inp, {**detail, "value": canon_f(v), "container_of_the_case": snapshot.get(loc), "target": item["target"]}, region=region)
+    return stats
+
+
 def witness_fails(w, rec=None) -> bool:
     own = rec is None
     rec = rec or Recorder()
@@ -2747,6 +2917,26 @@ def witness_fails(w, rec=None) -> bool:
             case = op.Case(body=prepare_urlencoded(copy.deepcopy(w["value"])), media_type=FORM_MT)
             _, problem, region, _ = form_oracle_one(sink, w["transport"], "explicit", case)
             return problem is not None and region == w["region"]
+        if kind == "unfiltered":
+            class _Capture:
+                broken = ()
+
+                def __init__(self):
+                    self.regions = []
+
+                def count(self, *a, **k):
+                    pass
+
+                seen = sample = disagree = count
+
+                def fail(self, what, case, detail=None, region=None):
+                    self.regions.append(region)
+
+            cap = _Capture()
+            c = {"defs": w["case"]["defs"], "values": w["case"]["values"]}
+            oracle_unfiltered_phases(cap, None, rec, 0, [c])
+            # the finding says: BOTH unfiltered phases send the value
+            return cap.regions.count(w["region"]) >= 2
         if kind == "label_falsy":
             from schemathesis.specs.openapi.serialization import label_primitive
 
